@@ -166,7 +166,7 @@ def _json_funcs(ctx) -> Tuple[Func, Func, Optional[Func]]:
 
 
 def rule_json_codec(ctx, rep, rid: str) -> None:
-    rep.rule(rid, "the host JSON codec is configured to the JSON/ECMAScript contract where its defaults deviate: parse rejects NaN/Infinity constants, stringify does not ASCII-escape and does not print non-finite numbers or host float spellings", floor=3)
+    rep.rule(rid, "the host JSON codec is configured to the JSON/ECMAScript contract where its defaults deviate: parse rejects NaN/Infinity constants, stringify does not ASCII-escape and does not print non-finite numbers or host float spellings", floor=2)
     parse, stringify, conv = _json_funcs(ctx)
     for n in parse.own_nodes():
         if isinstance(n, ast.Call) and norm(n.func) == "json.loads":
